@@ -73,6 +73,37 @@ def seeded_pairs(rng, tier):
             if len(t) < len(p):
                 t = t + [sym() for _ in range(len(p) - len(t))]
             out.append((t, p))
+    # texts with several full or partial occurrences of the pattern: a noisy full copy early, a long unrelated stretch,
+    # then an exact prefix (or a second, better or worse copy): the best score so far and the per-block scores evolve
+    # independently over many columns (any band / early-termination logic is exercised here)
+    for m in ([70, 129, 200, 320] if tier == "quick" else [65, 70, 129, 130, 192, 200, 257, 320, 513, 700, 1100]):
+        for r in range(3 if tier == "quick" else 10):
+            sigma = rng.choice([4, 13])
+            p = [rng.randrange(sigma) for _ in range(m)]
+            def noisy(q, k):
+                q = list(q)
+                for _ in range(k):
+                    i = rng.randrange(len(q))
+                    op = rng.random()
+                    if op < 0.5:
+                        q[i] = rng.randrange(sigma)
+                    elif op < 0.75 and len(q) > 1:
+                        del q[i]
+                    else:
+                        q.insert(i, rng.randrange(sigma))
+                return q
+            junk = lambda n: [rng.randrange(sigma) for _ in range(n)]
+            parts = [junk(rng.randint(0, 40)), noisy(p, rng.randint(1, max(2, m // 5))), junk(rng.randint(64, 200))]
+            kind = r % 3
+            if kind == 0:
+                parts.append(p[:rng.randint(m // 4, max(m // 4 + 1, m - 1))])          # exact prefix only
+            elif kind == 1:
+                parts.append(noisy(p, rng.randint(0, 3)))                               # a better second copy
+            else:
+                parts.append(noisy(p[:m // 2], 2) + junk(10) + noisy(p[m // 2:], 2))   # a broken second copy
+            parts.append(junk(rng.randint(0, 90)))
+            t = [x for part in parts for x in part]
+            out.append((t, p))
     return out
 
 
